@@ -374,6 +374,7 @@ def step (line : String) : String :=
   | ["pat", h] => runS (do let es ← Tables.patProgramsAll (bytesOfHex h); pure (fPat es))
   | ["pmt", h] => runS (opPmt (bytesOfHex h))
   | ["desc", h] => runS (fDescs (bytesOfHex h))
+  | ["descfb", h] => runS (do let it ← Tables.coreFromBytes (bytesOfHex h); fDescItem it)
   | "sec" :: "t" :: pk => runS (opSecTable (pk.map bytesOfHex))
   | "sec" :: k :: pk => runS (opSec (if k == "s" then Psi.rawSection else Psi.rawCompact) (pk.map bytesOfHex))
   | "pesf" :: pk => runS (opPesf (pk.map bytesOfHex))
